@@ -9,9 +9,6 @@ VERIF = os.path.dirname(os.path.dirname(os.path.abspath(__file__)))
 sys.path.insert(0, VERIF)
 
 NOT_APPLICABLE = {
-    "C11": "equivalence of the cache/popped/lengths index arithmetic with a copying model over all "
-           "histories is a data-structure invariant proof; no pairing/ownership rule is a necessary "
-           "condition of it beyond the usage discipline claimed under C03.SNAP (DESIGN.md section 6)",
 }
 # clauses added while building (DESIGN.md sections 10 and 12); appended to the module's own statement of what is decided
 ALSO = {
